@@ -512,7 +512,8 @@ int read_clu(struct in_buffer* b , struct msa** m)
                                 seq_ptr = msa->sequences[active_seq];
 
                                 p = line;
-                                j = 0;
+                                /* a line without a blank is a name without sequence text */
+                                j = line_len;
                                 for(i = 0;i < line_len;i++){
                                         if(i == MSA_NAME_LEN-1){
                                                 seq_ptr->name[i] = 0;
